@@ -20,7 +20,7 @@ _hq_cache = {}
 
 def has_quant(f):
     k = f.get_id()
-    if k in _hq_cache: return _hq_cache[k]
+    if k in _hq_cache and _hq_cache[k][0].eq(f): return _hq_cache[k][1]
     todo = [f]; seen = set(); res = False
     while todo:
         t = todo.pop()
@@ -28,7 +28,7 @@ def has_quant(f):
         seen.add(t.get_id())
         if z3.is_quantifier(t): res = True; break
         todo.extend(t.children())
-    _hq_cache[k] = res
+    _hq_cache[k] = (f, res)       # keeping f alive keeps its id from being reused
     return res
 
 
@@ -68,7 +68,7 @@ class State:
         self.heap[region] = arr
 
 
-EXC_INFO = TupT([RefT("type"), RefT("BaseException"), RefT("traceback")])
+EXC_INFO = TupT([RefT("TypeObj"), RefT("BaseException"), RefT("TracebackObj")])
 
 
 class Engine:
@@ -110,7 +110,7 @@ class Engine:
     def feasible(self, st, extra=()):
         """cheap pruning: only the quantifier-free hypotheses take part (sound: a superset of paths is kept)"""
         s = z3.Solver(); s.set("timeout", 1500)
-        for f in itertools.chain(st.pc, extra):
+        for f in itertools.chain(self.axioms, st.pc, extra):
             if not has_quant(f): s.add(f)
         return s.check() != z3.unsat
 
@@ -133,6 +133,8 @@ class Engine:
         return "f:" + field, self.ptype(t)
 
     def get_field(self, st, obj: SV, field):
+        if field == "nodes" and obj.ty.sort == Ref and isinstance(self.content_type(obj), GraphT):
+            return obj        # G.nodes: a live view; iteration / membership are those of the graph itself
         if not isinstance(obj.ty, RefT):
             raise Unsupported("attribute %s on %s" % (field, obj.ty))
         region, fty = self.field_region(obj.ty.cls, field)
@@ -245,6 +247,19 @@ class Engine:
             return SV(ty.mk(z3.IntVal(len(sv.ty.items)), arr), ty)
         if isinstance(ty, SeqT) and isinstance(sv.ty, ListT) and st is not None and sv.ty.elem.sort == ty.elem.sort:
             return SV(self.seq_of(st, sv)[1], ty)
+        if isinstance(ty, SetVT):
+            x = self.fresh("sv", ty.elem.sort)
+            if isinstance(sv.ty, TupT) and all(t.sort == ty.elem.sort for t in sv.ty.items):
+                return SV(z3.Lambda([x], z3.Or(*[x == sv.ty.get(sv.v, i) for i in range(len(sv.ty.items))])), ty)
+            if isinstance(sv.ty, SeqT) and sv.ty.elem.sort == ty.elem.sort:
+                i = self.fresh("si", I)
+                return SV(z3.Lambda([x], z3.Exists([i], z3.And(0 <= i, i < sv.ty.len(sv.v), sv.ty.arr(sv.v)[i] == x))), ty)
+            if st is not None and sv.ty.sort == Ref and isinstance(self.content_type(sv), (SetT, DictT, GraphT)):
+                e, m = self.set_of(st, sv)
+                if e.sort == ty.elem.sort: return SV(m, ty)
+            if st is not None and sv.ty.sort == Ref and isinstance(self.content_type(sv), ListT):
+                sq, v = self.seq_of(st, sv); i = self.fresh("si", I)
+                return SV(z3.Lambda([x], z3.Exists([i], z3.And(0 <= i, i < sq.len(v), sq.arr(v)[i] == x))), ty)
         if ty is RNODE and sv.ty is NODE: return SV(T.RNode.nd(sv.v), RNODE)
         if ty is RNODE and sv.ty.sort == Ref: return SV(T.RNode.rf(sv.v), RNODE)
         if sv.ty is NONE and isinstance(ty, TupT) and all(t.sort == Ref for t in ty.items):
@@ -289,6 +304,7 @@ class Engine:
 
     def equal(self, a: SV, b: SV, st, identity=False):
         if a.ty is NONE and b.ty is NONE: return z3.BoolVal(True)
+        if a.py is not None and b.py is not None: return z3.BoolVal(a.py == b.py)
         if a.ty is NONE: a = self.coerce(a, b.ty)
         if b.ty is NONE: b = self.coerce(b, a.ty)
         if isinstance(a.ty, PathT) and isinstance(b.ty, PathT):
@@ -331,7 +347,7 @@ class Engine:
         if v is None: return SV(NULL, NONE)
         if isinstance(v, bool): return SV(z3.BoolVal(v), BOOL)
         if isinstance(v, int): return SV(z3.IntVal(v), INT)
-        if isinstance(v, str): return SV(self.strconst(v), STR)
+        if isinstance(v, str): return SV(self.strconst(v), STR, py=v)
         raise Unsupported("constant %r" % (v,))
 
     def strconst(self, s):
@@ -352,7 +368,8 @@ class Engine:
         raise Unsupported("unbound name %s at line %s" % (n.id, n.lineno))
 
     def ev_Attribute(self, n, st):
-        # module attribute constants like sys.stderr are opaque
+        if isinstance(n.value, ast.Name) and n.value.id not in st.loc and (n.value.id + "." + n.attr) in self.reg.consts:
+            yield st, self.const(self.reg.consts[n.value.id + "." + n.attr]); return
         for s1, o in self.ev(n.value, st):
             if isinstance(o, Exc): yield s1, o; continue
             yield s1, self.get_field(s1, o, n.attr)
@@ -484,6 +501,27 @@ class Engine:
         return SV(v, sq)
 
     def ev_Tuple(self, n, st):
+        if any(isinstance(e, ast.Starred) for e in n.elts):
+            # (x, *S): only consumed as an unordered collection -> pure set value {x} | S
+            nodes = [e.value if isinstance(e, ast.Starred) else e for e in n.elts]
+            for s1, vs in self.evs(nodes, st):
+                if isinstance(vs, Exc): yield s1, vs; continue
+                ety = None
+                for e, v in zip(n.elts, vs):
+                    if isinstance(e, ast.Starred):
+                        ety = v.ty.elem if isinstance(v.ty, SetVT) else self.set_of(s1, v)[0]
+                if ety is None: raise Unsupported("starred tuple")
+                x = self.fresh("tx", ety.sort); parts = []
+                for e, v in zip(n.elts, vs):
+                    if isinstance(e, ast.Starred):
+                        m = v.v if isinstance(v.ty, SetVT) else self.set_of(s1, v)[1]
+                        parts.append(m[x])
+                    else:
+                        parts.append(x == self.coerce(v, ety, s1).v)
+                arr = self.fresh("tupset", z3.ArraySort(ety.sort, B))
+                s1.pc.append(z3.ForAll([x], arr[x] == z3.Or(*parts)))
+                yield s1, SV(arr, SetVT(ety))
+            return
         for s1, vs in self.evs(n.elts, st):
             if isinstance(vs, Exc): yield s1, vs; continue
             yield s1, self.mk_tuple(vs, s1)
@@ -540,6 +578,8 @@ class Engine:
     def subscript(self, o, ix, st, n):
         t = o.ty
         k = self.static_int(ix)
+        if o.py is not None and isinstance(o.py, str) and k is not None:
+            yield st, self.const(o.py[k]); return
         if t is NODE:
             if k == 0:
                 yield st, SV(z3.If(Node.is_item(o.v), Node.obj(o.v), Node.oobj(o.v)), RefT("CellsImpl")); return
@@ -771,6 +811,7 @@ class Engine:
             yield s1, None
 
     def st_Return(self, n, st):
+        if n.value is not None: n.value._assign_target = "@return"
         if n.value is None:
             yield st, ("return", SV(NULL, NONE)); return
         for s1, v in self.ev(n.value, st):
